@@ -251,6 +251,62 @@ def build(ctx):
         bad = [(pts[i], first[i], second[i]) for i in range(len(pts)) if abs(first[i] - second[i]) > 1e-12]
         return {"reproduced": bool(bad), "input": {"sequence": pts}, "observed": bad[:3], "required": "the same Z whatever was evaluated before"}
 
+    def every_return_is_a_root():
+        """'it is never a search bound or a starting guess': on EVERY path that returns inside the validity rectangle the
+        returned Z is computed from the root delivered by the bracketing root finder; a returning path without one (a
+        shortcut, a fallback after an exception, a special case) that is reachable in the rectangle is refuted with a point of it"""
+        outs = paths(ctx, ZF, [Tv, pv, Tpcv, Ppcv])
+        r459 = tm.rconst("459.67")
+        trr = tm.div(tm.add(Tv, r459), tm.add(Tpcv, r459))
+        prr = tm.div(pv, Ppcv)
+        rect = [tm.le(tm.rconst("1.05"), trr), tm.le(trr, tm.rconst(3)), tm.gt(prr, tm.rconst(0)), tm.le(prr, tm.rconst(30)),
+                tm.gt(tm.add(Tpcv, r459), tm.rconst(200)), tm.gt(Ppcv, tm.rconst(300)), tm.lt(Ppcv, tm.rconst(1000))]
+        n_ret = 0
+        for o in outs:
+            if o.kind != "return":
+                continue
+            n_ret += 1
+            roots = o.heap["ghost"].get("roots", [])
+            uses_root = isinstance(o.value, tm.T) and any(r_["root"] in tm.postorder(o.value) for r_ in roots)
+            if uses_root:
+                continue
+            feasible, model = be.check_sat(list(o.pc) + list(o.facts) + rect, timeout_ms=20000)
+            if feasible:
+                wit = {k_: model.get(k_) for k_ in ("T", "p", "Tpc", "Ppc")}
+                return with_models(be.Verdict(be.REFUTED, "SMT", witness=wit, detail=f"a returning path of z_factor_DAK inside the validity rectangle does not go through the root finder: it returns {o.value} under {[str(c_)[:80] for c_ in o.pc][:4]}"), o)
+            if feasible is None:
+                return be.Verdict(be.UNKNOWN, "SMT", detail="reachability of a returning path without a root is undecided")
+        if n_ret == 0:
+            raise sx.OutOfSubset("z_factor_DAK: no returning path")
+        return be.Verdict(be.PROVED, "SMT", detail=f"{n_ret} returning path(s), each returns a function of the bracketed root")
+
+    def every_return_replay(w):
+        import numpy as np
+        zf = real(ZF)
+        cands = []
+        if all(isinstance(w.get(k_), (int, float)) for k_ in ("T", "p", "Tpc", "Ppc")):
+            cands.append((float(w["T"]), float(w["p"]), float(w["Tpc"]), float(w["Ppc"])))
+        cands += [(60.0, 14.7, -102.0, 649.0), (120.0, 19000.0, -50.0, 640.0), (200.0, 3881.4, -102.2, 648.5)]
+        Ff = None
+        try:
+            ret, root, F, Fs, Zs, zval = code_eos(ctx)
+            Ff = lambda t_r, p_r, rh: tm.feval(Fs, {"tr": t_r, "pr": p_r, "rho": rh})
+        except Exception:  # noqa: BLE001
+            pass
+        for (T_, p_, Tc_, Pc_) in cands:
+            t_r, p_r = (T_ + 459.67) / (Tc_ + 459.67), p_ / Pc_
+            if not (1.05 <= t_r <= 3 and 0 < p_r <= 30):
+                continue
+            z = float(zf(T_, p_, Tc_, Pc_))
+            rh = 0.27 * p_r / (t_r * z)
+            zp = tm.feval(z_published(rho, tr), {"rho": rh, "tr": t_r})
+            zlib = zp - (0.3265 + -1.07 / t_r) * rh + (0.3265 * -1.07 / t_r) * rh   # the equation the library solves (its own first coefficient)
+            if abs(zlib - z) > 1e-7:
+                return {"reproduced": True, "input": {"T": T_, "p": p_, "Tpc": Tc_, "Ppc": Pc_, "T_r": t_r, "p_r": p_r}, "observed": {"Z": z, "Z the equation gives at rho(Z)": float(zlib)}, "required": "equal (Z is the root)"}
+        return real_scan(lambda t_r, p_r, z: None) if False else {"reproduced": False}
+
+    obs.append(Obligation("dak.every_return_is_a_root", "every returning path of z_factor_DAK that is reachable in the validity rectangle returns a function of the root delivered by the bracketing root finder (never a guess, a bound or a fallback)", every_return_is_a_root, fs, "SMT", every_return_replay))
+
     obs.append(Obligation("dak.pure", "z_factor_DAK reads and writes no state that outlives the call (result is a function of the four arguments)", pure, fs, "FRAME", pure_replay))
 
     def canary():
